@@ -31,12 +31,12 @@ def seeded():
 out=[]
 o=own()
 det=sum(1 for r in o if r[2].startswith('DETECTED'))
-out.append("**Own one-site mutants** (`mutants/make_mutants.py`, taken from the *Must detect* lists; not claimed to keep the repository's suite green). Quick tier, `mutants/run_mutants.sh`: **%d of %d detected.**\n" % (det,len(o)))
+out.append("**Own one-site mutants** (`mutants/make_mutants.py`, taken from the *Must detect* lists; not claimed to keep the repository's suite green). Quick tier, last full run with `seeded/run_parallel.sh` (scratch copies; detection-only mode skips the remaining explorations once one has found a violation, so the bracketed number of violation classes is a lower bound): **%d of %d detected.**\n" % (det,len(o)))
 out.append("| property | mutant | quick check |\n|---|---|---|")
 for prop,mut,verdict,t in o:
     out.append("| %s | `%s` | %s |" % (prop,mut,verdict.lower()))
 s=seeded()
-out.append("\n**Seeded changes** (`seeded/<id>/`): written by independent sub-agents that were given only the property text and a scratch worktree, each confirmed in a scratch worktree with `seeded/confirm.sh` (410 existing tests pass with the patch; the demo test fails with it and passes without). Final run of the registered quick checks against each (`seeded/run_seeded.sh`, results in `seeded/results_final.txt`):\n")
+out.append("\n**Seeded changes** (`seeded/<id>/`): written by independent sub-agents that were given only the property text and a scratch worktree, each confirmed in a scratch worktree with `seeded/confirm.sh` (410 existing tests pass with the patch; the demo test fails with it and passes without). Last full run of the quick checks against each (`seeded/run_parallel.sh` on scratch copies, or `seeded/run_seeded.sh` one at a time in `/repo`; results in `seeded/results_final.txt`):\n")
 out.append("| id | what the change does / needs | detected by (quick) | first signature |\n|---|---|---|---|")
 nd=0; nobs=0; nown=0
 for sid,m,rs in s:
